@@ -302,10 +302,32 @@ def framing_unit(v, res):
     res.sample({'framing': v}, cap=1)
 
 
-def multi_unit(kinds, bound, with_err, res, shard=None, only_schedule=None):
-    """kinds: tuple of payload kinds, one connection each, distinct control ids."""
+def fresh_server(with_err):
+    from hl7apy.mllp import MLLPServer
+    s = MLLPServer('127.0.0.1', 0, handlers(with_err), timeout=5)
+    s.errors = []
+    s.handle_error = lambda request, addr: s.errors.append(sys.exc_info()[1])
+    return s
+
+
+class _Srv(object):
+    """the server of the current execution (a new one per execution, so that whatever a request leaves behind on the
+    server object is there exactly when the history of that execution put it there)"""
+    cur = None
+
+    @property
+    def errors(self):
+        return self.cur.errors
+
+
+def multi_unit(kinds, bound, with_err, res, shard=None, only_schedule=None, warm=False):
+    """kinds: tuple of payload kinds, one connection each, distinct control ids.  warm: the server has already served one
+    connection of every kind (other control ids) when the connections of the execution arrive."""
+    from . import c19
     sched.install()
-    srv = server(with_err)
+    srv = _Srv()
+    snap0 = c19.snapshot_shared()
+    warmups = [SB + P(k, 'w%d' % i).replace(b'|P|2.5', b'') + CR + EB + CR for i, k in enumerate(('registered-A', 'registered-B', 'unregistered', 'non-hl7'))] if warm else []
     fr = []
     for i, k in enumerate(kinds):
         fr.append(SB + P(k, 'c%d' % i).replace(b'|P|2.5', b'') + CR + EB + CR)
@@ -313,6 +335,13 @@ def multi_unit(kinds, bound, with_err, res, shard=None, only_schedule=None):
     socks = []
 
     def make():
+        c19.restore_shared(snap0)
+        if srv.cur is not None:
+            srv.cur.server_close()
+        srv.cur = fresh_server(with_err)
+        for w in warmups:
+            ws = FakeSocket([w], after='timeout')
+            srv.cur.process_request_thread(ws, ('127.0.0.1', 2))
         del LOG[:]
         del srv.errors[:]
         del socks[:]
@@ -321,11 +350,11 @@ def multi_unit(kinds, bound, with_err, res, shard=None, only_schedule=None):
             # two arrivals per connection so that a partially read frame is on the table when another runs
             fs = FakeSocket([f[:7], f[7:]], after='timeout', on_op=lambda op: sched.external_point(op))
             socks.append(fs)
-            bodies.append((lambda s: (lambda: srv.process_request_thread(s, ('127.0.0.1', 1))))(fs))
+            bodies.append((lambda s, sv: (lambda: sv.process_request_thread(s, ('127.0.0.1', 1))))(fs, srv.cur))
         return bodies
     stats = {'n': 0, 'pre': 0}
     outcomes = set()
-    point0 = {'kind': 'multi', 'kinds': list(kinds), 'bound': bound, 'with_err': with_err}
+    point0 = {'kind': 'multi', 'kinds': list(kinds), 'bound': bound, 'with_err': with_err, 'warm': warm}
     sh = shard
 
     def on_exec(choices, results, ex):
@@ -351,11 +380,16 @@ def multi_unit(kinds, bound, with_err, res, shard=None, only_schedule=None):
                           % (len(news), want_n, news), pt, len(choices))
         if srv.errors:
             res.violation('multi|exception|%s' % '+'.join(sorted(kinds)), 'handler thread raised %r' % (srv.errors[:2],), pt, len(choices))
-    if only_schedule is not None:
-        r, ex = sched.run_schedule(make, only_schedule)
-        on_exec(ex.choices, r, ex)
-        return
-    n, capped = sched.explore(make, bound, on_exec, shard=shard)
+    try:
+        if only_schedule is not None:
+            r, ex = sched.run_schedule(make, only_schedule)
+            on_exec(ex.choices, r, ex)
+            return
+        n, capped = sched.explore(make, bound, on_exec, shard=shard)
+    finally:
+        if srv.cur is not None:
+            srv.cur.server_close()
+        c19.restore_shared(snap0)
     res.evaluations += n
     res.enumerated += n
     res.expected_size += n
@@ -364,8 +398,8 @@ def multi_unit(kinds, bound, with_err, res, shard=None, only_schedule=None):
     res.validated += n
     res.nontrivial += stats['pre']
     res.classes['multi:distinct-outcomes=%d' % len(outcomes)] += 1
-    res.dims['multi %d connections bound %d' % (len(kinds), bound)] += 1
-    res.sample({'multi': list(kinds), 'bound': bound, 'executions': n, 'with_preemption': stats['pre']}, cap=3)
+    res.dims['multi %d connections bound %d%s' % (len(kinds), bound, ' (server warmed up)' if warm else '')] += 1
+    res.sample({'multi': list(kinds), 'bound': bound, 'warm': warm, 'executions': n, 'with_preemption': stats['pre']}, cap=3)
 
 
 # ----------------------------------------------------------------------------------- real TCP conformance
@@ -465,6 +499,10 @@ def units(tier):
         else:
             us.append(('multi', (a, b), 1, True, None))
     us.append(('multi', ('registered-A', 'unregistered'), 1, False, None))
+    # the same pairs on a server that has already served one connection of every kind (non-initial start)
+    for a, b in itertools.combinations_with_replacement(kinds, 2):
+        us.append(('multi', (a, b), 1, True, None, True))
+    us.append(('multi', ('registered-A', 'registered-B'), 1, False, None, True))
     for t in (('registered-A', 'registered-B', 'unregistered'), ('registered-A', 'registered-A', 'non-hl7')):
         if tier == 'quick':
             us.append(('multi', t, 1, True, None))
@@ -491,7 +529,7 @@ def run_unit(unit, tier):
     elif unit[0] == 'framing':
         framing_unit(unit[1], res)
     elif unit[0] == 'multi':
-        multi_unit(unit[1], unit[2], unit[3], res, unit[4])
+        multi_unit(unit[1], unit[2], unit[3], res, unit[4], warm=len(unit) > 5 and unit[5])
     else:
         conformance_unit([fix_case(c) for c in TCP_CASES[unit[1]:unit[1] + 4]], res)
     return res
@@ -517,6 +555,6 @@ def replay(point, res):
     elif k == 'framing':
         framing_unit(point['v'], res)
     elif k == 'multi':
-        multi_unit(tuple(point['kinds']), point['bound'], point['with_err'], res, only_schedule=point.get('choices'))
+        multi_unit(tuple(point['kinds']), point['bound'], point['with_err'], res, only_schedule=point.get('choices'), warm=point.get('warm', False))
     else:
         conformance_unit([(point['name'], point['b'], tuple(point['cuts']), point['after'], point['with_err'])], res)
